@@ -575,9 +575,19 @@ func c19JudgeInflight(all []c19Op, r c19Res) string {
 	for _, n := range c19Readings(r.Op.Host) {
 		names[n] = true
 	}
+	byNo := map[int]c19Op{}
+	for _, o := range all {
+		byNo[o.No] = o
+	}
 	for _, o := range all {
 		if o.K == "create" && names[o.full()] && o.C == r.RClient && c19TargetHost(o.C) == r.RHost && c19CreatePort(o.No) == r.RPort {
 			return ""
+		}
+		// or the target its owner was moving it to
+		if o.K == "update" && o.Upd == "port" {
+			if c, ok := byNo[o.Ref]; ok && c.K == "create" && names[c.full()] && c.C == r.RClient && c19TargetHost(c.C) == r.RHost && c19UpdatePort(o.No) == r.RPort {
+				return ""
+			}
 		}
 	}
 	return "misroute-inflight"
